@@ -90,9 +90,32 @@ Proof.
   apply N.eqb_eq in E. subst. auto.
 Qed.
 Lemma tr_cts_locked_res : forall m v v', tr_cts_locked m v = Some v' -> v' = v \/ (exists a b, v = Locked a /\ v' = Locked b).
-Proof. intros m v v' H. destruct v; cbn in H; inversion H; auto. right. eauto. Qed.
+Proof. intros m v v' H. destruct v; cbn in H; inversion H; auto. Qed.
 Lemma tr_cts_committed_fresh : forall c, tr_fresh (tr_cts_committed c). Proof. intros c v' E. discriminate. Qed.
 Lemma tr_cts_locked_fresh : forall m, tr_fresh (tr_cts_locked m). Proof. intros c v' E. inversion E. auto. Qed.
+
+Lemma cts_rb_core : forall s s2 r T p, invT s T ->
+  negb (fb (getc s T) FHasm && negb (p =? cn (getc s T) FPrim) && match kget s T p with Locked _ => true | _ => false end) = true ->
+  step_key (add_dlv s (ECtsReply r T p StRolledBack)) T p tr_rb = Some s2 -> invT s2 T.
+Proof.
+  intros s s2 r T p HI C E. set (e' := ECtsReply r T p StRolledBack) in *. pose proof HI as [G I].
+  assert (NE : forall r0 ks0 x0, e' <> EPwReply r0 T ks0 x0) by (intros; discriminate).
+    assert (D : dshape s s2 T e') by (eapply dshape_key; eauto using tr_rb_ok, tr_rb_fresh).
+    apply step_key_char in E. destruct E as [v [K [E | [E [m0 [c0 [E1 _]]]]]]]; [| rewrite E1 in E; discriminate].
+    apply tr_rb_res in E. destruct E as [-> NC].
+    apply (deliver_inv _ _ T e' D HI); unfold e'; vac; auto.
+    + intros r0 p0 E0. inversion E0. subst. rewrite K, N.eqb_refl. auto.
+    + intros Ib Hcb Hhb. repeat split; vac.
+      * intros k c A B. exfalso. rewrite K in A. destruct (p =? k); congruence.
+      * intros c A B. exfalso. rewrite K in A. destruct (p =? cn (getc s T) FPrim); congruence.
+      * intros k Hk A B. rewrite K in A. destruct (N.eqb_spec p k) as [-> | Hne]; [| congruence].
+        destruct (N.eq_dec k (cn (getc s T) FPrim)) as [-> | HnP].
+        -- left. unfold prim, F. rewrite (d_c _ _ _ _ D). rewrite K, N.eqb_refl. auto.
+        -- apply (mark_NS s s2 T e' k D G NE Hk); [| rewrite K, N.eqb_refl; auto].
+           destruct (kget s T k) eqn:Ek; auto; try congruence; exfalso.
+           all: try (eapply NC; eauto; fail).
+           all: unfold hasm, F in Hhb; apply fb_true in Hhb; rewrite Hhb in C; apply N.eqb_neq in HnP; rewrite HnP in C; discriminate.
+Qed.
 
 Lemma own_cts_deliver : forall s s' r T p st, invT s T -> stepr s (ECtsDeliver r T p st) = Ok s' -> invT s' T.
 Proof.
@@ -101,13 +124,15 @@ Proof.
   assert (NE : forall r0 ks0 x0, e' <> EPwReply r0 T ks0 x0) by (intros; discriminate).
   destruct st as [ttl m a secs | C | | | | |].
   - (* locked *)
+    chks H. rename C into CA.
     destruct (step_key _ _ _ _) as [s2 |] eqn:E; try discriminate. injection H as H'; subst s'.
     assert (D : dshape s s2 T e') by (eapply dshape_key; eauto using tr_cts_locked_ok, tr_cts_locked_fresh).
     apply step_key_char in E. destruct E as [v [K [E | [E [m0 [c0 [E1 _]]]]]]]; [| rewrite E1 in E; discriminate].
     apply tr_cts_locked_res in E.
     assert (CH : forall k, kget s2 T k = kget s T k \/ exists a b, kget s T k = Locked a /\ kget s2 T k = Locked b).
-    { intros k. rewrite K. destruct (N.eqb_spec p k); auto. subst. destruct E as [-> | [a0 [b0 [E1 E2]]]]; eauto. }
+    { intros k. rewrite K. destruct (N.eqb_spec p k); auto. subst. auto. }
     apply (deliver_inv _ _ T e' D HI); unfold e'; vac; auto.
+    { intros r0 p0 ttl0 m0 secs0 E0. inversion E0. subst. cbn [negb orb] in CA. apply fb_true in CA. auto. }
     intros Ib Hcb Hhb. repeat split; vac.
     + intros k c A B. exfalso. destruct (CH k) as [A' | [a0 [b0 [A1 A2]]]]; congruence.
     + intros c A B. exfalso. destruct (CH (cn (getc s T) FPrim)) as [A' | [a0 [b0 [A1 A2]]]]; congruence.
@@ -145,22 +170,15 @@ Proof.
         pose proof (WP W (C0' m0 L W)) as X. rewrite Ep in X. congruence.
       * intros k Hk A B. exfalso. destruct (CH k) as [-> _]; [congruence |]. rewrite K, N.eqb_refl in A. discriminate.
   - (* rolled back *)
-    chks H. destruct (step_key _ _ _ _) as [s2 |] eqn:E; try discriminate. injection H as H'; subst s'.
-    assert (D : dshape s s2 T e') by (eapply dshape_key; eauto using tr_rb_ok, tr_rb_fresh).
-    apply step_key_char in E. destruct E as [v [K [E | [E [m0 [c0 [E1 _]]]]]]]; [| rewrite E1 in E; discriminate].
-    apply tr_rb_res in E. destruct E as [-> NC].
-    apply (deliver_inv _ _ T e' D HI); unfold e'; vac; auto.
-    + intros r0 p0 E0. inversion E0. subst. rewrite K, N.eqb_refl. auto.
-    + intros Ib Hcb Hhb. repeat split; vac.
-      * intros k c A B. exfalso. rewrite K in A. destruct (p =? k); congruence.
-      * intros c A B. exfalso. rewrite K in A. destruct (p =? cn (getc s T) FPrim); congruence.
-      * intros k Hk A B. rewrite K in A. destruct (N.eqb_spec p k) as [-> | Hne]; [| congruence].
-        destruct (N.eq_dec k (cn (getc s T) FPrim)) as [-> | HnP].
-        -- left. unfold prim, F. rewrite (d_c _ _ _ _ D). rewrite K, N.eqb_refl. auto.
-        -- apply (mark_NS s s2 T e' k D G NE Hk); [| rewrite K, N.eqb_refl; auto].
-           destruct (kget s T k) eqn:Ek; auto; try congruence; exfalso.
-           all: try (eapply NC; eauto; fail).
-           all: unfold hasm, F in Hhb; apply fb_true in Hhb; rewrite Hhb in C; apply N.eqb_neq in HnP; rewrite HnP in C; discriminate.
+    chks H.
+    match type of H with context [if ?bb then _ else _] => destruct bb end.
+    + destruct (step_key _ _ _ _) as [s2 |] eqn:E; try discriminate. injection H as H'; subst s'.
+      change (setc (add_dlv s e') T (setn (getc s T) FStFb 1)) with (add_dlv (setc s T (setn (getc s T) FStFb 1)) e') in E.
+      eapply (cts_rb_core (setc s T (setn (getc s T) FStFb 1))); [| | exact E].
+      * apply invT_acct; auto. intros f0 Hf0; destruct f0; try discriminate Hf0; reflexivity.
+      * rewrite getc_setc_eq. exact C.
+    + destruct (step_key _ _ _ _) as [s2 |] eqn:E; try discriminate. injection H as H'; subst s'.
+      eapply (cts_rb_core s); eauto.
   - okinv H. apply (deliver_inv _ _ T e' (dshape_nokeys s e' T) HI); unfold e'; vac; auto.
     intros Ib Hcb Hhb. repeat split; vac; intros; exfalso; rd; congruence.
   - okinv H. apply (deliver_inv _ _ T e' (dshape_nokeys s e' T) HI); unfold e'; vac; auto.
@@ -198,7 +216,7 @@ Proof.
   set (e' := ECslReply r T ks st) in *. pose proof HI as [G I].
   assert (NE : forall r0 ks0 x0, e' <> EPwReply r0 T ks0 x0) by (intros; discriminate).
   destruct st as [l | C |].
-  - destruct (step_csl_locks _ _ _) as [s2 |] eqn:E; try discriminate. injection H as H'; subst s'.
+  - chks H. destruct (step_csl_locks _ _ _) as [s2 |] eqn:E; try discriminate. injection H as H'; subst s'.
     apply step_csl_locks_char in E. destruct E as [S CH].
     assert (CH' : forall k, kget s2 T k = kget s T k \/ exists a b, kget s T k = Locked a /\ kget s2 T k = Locked b) by (intros k; apply (CH T k)).
     assert (D : dshape s s2 T e').
@@ -211,7 +229,7 @@ Proof.
     + intros c A B. exfalso. destruct (CH' (cn (getc s T) FPrim)) as [A' | [a0 [b0 [A1 A2]]]]; congruence.
     + intros k Hk A B. exfalso. destruct (CH' k) as [A' | [a0 [b0 [A1 A2]]]]; congruence.
   - destruct (N.eq_dec C 0) as [-> | HC].
-    + cbn [N.eqb] in H. destruct (step_keys _ _ _ _) as [s2 |] eqn:E; try discriminate. injection H as H'; subst s'.
+    + cbn [N.eqb] in H. chks H. destruct (step_keys _ _ _ _) as [s2 |] eqn:E; try discriminate. injection H as H'; subst s'.
       pose proof (step_keys_char _ _ _ _ _ _ tr_csl_rb_ok tr_csl_rb_idem tr_csl_rb_total E) as Ch.
       assert (D : dshape s s2 T e') by (eapply dshape_keys; eauto using tr_csl_rb_ok, tr_csl_rb_fresh).
       assert (CH : forall k, kget s2 T k = kget s T k \/ (kget s T k = Unlocked /\ kget s2 T k = RolledBack)).
@@ -221,7 +239,7 @@ Proof.
       * intros k c A B. exfalso. destruct (CH k) as [A' | [A1 A2]]; congruence.
       * intros c A B. exfalso. destruct (CH (cn (getc s T) FPrim)) as [A' | [A1 A2]]; congruence.
       * intros k Hk A B. destruct (CH k) as [A' | [A1 A2]]; [congruence |]. eapply mark_NS; eauto.
-    + apply N.eqb_neq in HC. rewrite HC in H. okinv H.
+    + apply N.eqb_neq in HC. rewrite HC in H. chks H. okinv H.
       apply (deliver_inv _ _ T e' (dshape_nokeys s e' T) HI); unfold e'; vac; auto.
       intros Ib Hcb Hhb. repeat split; vac; intros; exfalso; rd; congruence.
   - okinv H. apply (deliver_inv _ _ T e' (dshape_nokeys s e' T) HI); unfold e'; vac; auto.
